@@ -55,7 +55,7 @@ def comp_src(c: str, params: list) -> str:
 
 def case_line(mode: str, case: dict) -> str:
     shp = ",".join(map(str, case["shape"])) or "-"
-    return f"C11 {mode} {shp} " + " ".join(case["comps"])
+    return f"{mode} {shp} " + " ".join(case["comps"])
 
 
 def py_index(case: dict, wrap):
@@ -419,7 +419,7 @@ def main(run: core.Run) -> None:
         "separated advanced indices and multi-vector (zip) indexing are outside the model and excluded from generation",
     ]
     audit = run.prove(PROP_MODULES)
-    drv = core.Driver()
+    drv = core.Driver("C11")
     stats: Counter = Counter()
 
     if run.replay_path:
